@@ -2,6 +2,7 @@ package keeper
 
 import (
 	tokenminttypes "github.com/comdex-official/comdex/x/tokenmint/types"
+	vaulttypes "github.com/comdex-official/comdex/x/vault/types"
 	"time"
 
 	utils "github.com/comdex-official/comdex/types"
@@ -526,6 +527,24 @@ func (k Keeper) TriggerEsm(ctx sdk.Context, auctionData types.Auction, liquidati
 		return err
 	}
 	k.vault.UpdateCollateralLockedAmountLockerMapping(ctx, auctionData.AppId, liquidationData.ExtendedPairId, collateralAuctioned, false)
+
+	// the unsold collateral goes back into vault custody together with the vault record, and the auction is
+	// closed: without this the hand-back was repeated in every following block
+	if auctionData.CollateralToken.Amount.IsPositive() {
+		err = k.bankKeeper.SendCoinsFromModuleToModule(ctx, auctionsV2types.ModuleName, vaulttypes.ModuleName, sdk.NewCoins(auctionData.CollateralToken))
+		if err != nil {
+			return err
+		}
+	}
+	err = k.DeleteAuction(ctx, auctionData)
+	if err != nil {
+		return err
+	}
+	err = k.SetAuctionHistorical(ctx, auctionsV2types.AuctionHistorical{AuctionId: auctionData.AuctionId, AuctionHistorical: &auctionData, LockedVault: &liquidationData})
+	if err != nil {
+		return err
+	}
+	k.LiquidationsV2.DeleteLockedVault(ctx, auctionData.AppId, liquidationData.LockedVaultId)
 
 	return nil
 
